@@ -40,6 +40,8 @@ def importNameFrom (dn : DistinguishedName) : Name → Except Err DistinguishedN
   | rdn :: rest =>
     match rdn with
     | [a] =>
+      -- `oid_components`: a component that does not fit 64 bits is refused
+      if a.oid.any (fun x => x ≥ 2 ^ 64) then .error .couldNotParseCertificate else
       match importValue a with
       | .ok v =>
         -- a repeated attribute type cannot be represented: refused, never collapsed
@@ -57,6 +59,7 @@ def importSan : GName → Except Err SanType
   | .uri b => .ok (.uri b)
   | .ip o => if o.length = 16 ∨ o.length = 4 then .ok (.ip o) else .error .invalidIpAddressOctetLength
   | .other oid tag c =>
+    if oid.any (fun x => x ≥ 2 ^ 64) then .error .couldNotParseCertificate else
     if tag = 12 then (if utf8Valid c then .ok (.otherName oid c) else .error .couldNotParseCertificate)
     else .error .couldNotParseCertificate
   | .dirName _ => .error .invalidNameType
